@@ -200,9 +200,24 @@ def backend_functions(be: str, ws: Dict[str, Any]) -> List[str]:
 # --------------------------------------------------------------------------------------------------
 
 
+_EXP_CACHE: Dict[str, Any] = {"key": None, "all": None}
+
+
 def expected(ws: Dict[str, Any], table, fns) -> Tuple[List[str], List[Tuple[Any, ...]]]:
+    """Reference result for the functions `fns` (computed once per (window, table) for all applicable functions
+    and projected: the three back ends are compared with the same reference values)."""
     cols = list(SCHEMA)
-    return O.ref_window(cols, O.table_rows(table, cols), ws["partition_by"], ws["order_by"], ws["reverse"], {f: (FN[f][2], FN[f][3], FN[f][4]) for f in fns})
+    key = (ws["id"], repr(table))
+    if _EXP_CACHE["key"] != key:
+        allf = applicable(ws)
+        _EXP_CACHE["key"] = key
+        _EXP_CACHE["all"] = O.ref_window(cols, O.table_rows(table, cols), ws["partition_by"], ws["order_by"], ws["reverse"], {f: (FN[f][2], FN[f][3], FN[f][4]) for f in allf})
+    acols, arows = _EXP_CACHE["all"]
+    if any(f not in acols for f in fns):
+        return O.ref_window(cols, O.table_rows(table, cols), ws["partition_by"], ws["order_by"], ws["reverse"], {f: (FN[f][2], FN[f][3], FN[f][4]) for f in fns})
+    keep = cols + list(fns)
+    idx = [acols.index(c) for c in keep]
+    return keep, [tuple(r[i] for i in idx) for r in arows]
 
 
 def compare(exp, obs, fns) -> Dict[str, Any]:
@@ -373,6 +388,7 @@ def bounded(rep: Report, tier: str, seed: int) -> None:
     n_nontrivial = sum(v for k, v in counts.items() if k.split(":")[1] in ("ok", "fail") and not k.endswith(":empty"))
     rep.nontrivial_keys |= set((PID, i) for i in range(n_nontrivial))
     rep.violations.sort(key=lambda v: (len(v.replay["case"]["table"]["x"]), len(v.replay["case"]["window"]), v.key, repr(v.replay["case"])))
+    O.cap_unclassified(rep)
     wrap.require_evaluated(rep, CB.names())
     rep.extra["status_counts"] = dict(sorted(counts.items()))
     rep.extra["window_table_cases"] = n_cases
@@ -393,8 +409,12 @@ def replay_case(case: Dict[str, Any]) -> bool:
     for be in BACKENDS:
         if case.get("backend") and be != case["backend"]:
             continue
-        r = eval_backend(ws, table, be, fns if fns is None or be == "pandas" or fns[0] in backend_functions(be, ws) else [])
+        r = eval_backend(ws, table, be)  # the same batch of functions as in the run
+        if fns and fns[0] not in r["fns"] and be == case.get("backend"):
+            r = eval_backend(ws, table, be, fns)
         for f, fr in r["fns"].items():
+            if fns and f not in fns:
+                continue
             if "exp" in fr:
                 e = _column(fr["exp"][0], fr["exp"][1], f)
                 print("%s %s: reference value per row key (p1,p2,o1,o2): %r" % (be, f, e))
